@@ -462,6 +462,8 @@ Section ConcProofs.
       rewrite Hthr in Hle at 1. rewrite sum_owed_lupd in Hle by auto. rewrite Hth in Hle. simpl in Hle. lia.
   Qed.
 
+  Ltac capstep_ cap s tid I I' C Htid Eth := eapply (cap_step cap s _ tid _ _ _ _ I I' C Htid Eth eq_refl); simpl; [ |lia| ].
+
   Lemma step_cap cap s tid s' : Inv s -> CapInv cap s -> step s tid = Some s' -> CapInv cap s'.
   Proof.
     intros I C Hstep. pose proof (step_inv s tid s' I Hstep) as I'.
@@ -472,77 +474,65 @@ Section ConcProofs.
     assert (Hin : In (p, rest) (c_thr s)) by (rewrite <- Eth; apply nth_In; exact Htid).
     destruct (ci_thr cap s C _ Hin) as [Hpc Hrest]. simpl in Hpc, Hrest.
     pose proof (ci_exh cap s C) as Hex.
-    assert (Hnew : forall s1 p1 rest1, c_thr s1 = lupd tid (p1, rest1) (c_thr s) -> (forall th, In th (c_thr s1) -> thr_ok th) -> pc_ok p1).
-    { intros s1 p1 rest1 Hs1 H1. apply (H1 (p1, rest1)). rewrite Hs1. rewrite <- (nth_lupd_eq tid (p1, rest1) (c_thr s) (Idle, [])) at 1 by auto.
+    assert (Hnew : forall p1 rest1, (forall th, In th (lupd tid (p1, rest1) (c_thr s)) -> thr_ok th) -> pc_ok p1).
+    { intros p1 rest1 H1. apply (H1 (p1, rest1)). rewrite <- (nth_lupd_eq tid (p1, rest1) (c_thr s) (Idle, [])) at 1 by auto.
       apply nth_In. rewrite lupd_length. exact Htid. }
     destruct p; simpl in Hpc.
     - destruct rest as [|c rest']; [discriminate|]. intros E I' Hok'; inversion E; subst s'.
-      eapply (cap_step cap s _ tid _ _ _ _ I I' C Htid Eth eq_refl); simpl; try lia.
+      capstep_ cap s tid I I' C Htid Eth.
       + split; simpl; [|intros c0 Hc0; apply Hrest; right; exact Hc0].
         pose proof (Hrest c (or_introl eq_refl)) as Hc. destruct c; simpl in *; auto.
       + left. destruct c; simpl; lia.
     - destruct (lock_free s _); [|discriminate]. intros E I' Hok'; inversion E; subst s'.
-      eapply (cap_step cap s _ tid _ _ _ _ I I' C Htid Eth eq_refl); simpl; try lia.
-      + split; simpl; auto.
-      + left. destruct (tlen _ <? tlen _)%Z; lia.
+      capstep_ cap s tid I I' C Htid Eth; [split; simpl; auto|left; destruct (tlen _ <? tlen _)%Z; lia].
     - intros E I' Hok'; inversion E; subst s'.
-      eapply (cap_step cap s _ tid _ _ _ _ I I' C Htid Eth eq_refl); simpl; try lia.
-      + split; simpl; auto.
-      + left. destruct isnew; lia.
+      capstep_ cap s tid I I' C Htid Eth; [split; simpl; auto|left; destruct isnew; lia].
     - destruct (Z.ltb_spec cap0 (sm_count (c_map s))).
       + destruct (tevict mix _ _ _ _) as [t2 d]. intros E I' Hok'; inversion E; subst s'.
-        pose proof (Hnew _ _ _ eq_refl Hok') as Hd. simpl in Hd.
-        eapply (cap_step cap s _ tid _ _ _ _ I I' C Htid Eth eq_refl); simpl; try lia.
-        * split; simpl; auto.
-        * left. lia.
+        pose proof (Hnew (SwcSub k cap0 d) rest Hok') as Hd. simpl in Hd.
+        capstep_ cap s tid I I' C Htid Eth; [split; simpl; auto|left; lia].
       + intros E I' Hok'; inversion E; subst s'.
-        eapply (cap_step cap s _ tid _ _ _ _ I I' C Htid Eth eq_refl); simpl; try lia.
-        * split; simpl; auto.
-        * right. lia.
+        capstep_ cap s tid I I' C Htid Eth; [split; simpl; auto|right; lia].
     - destruct Hpc as [-> Hd]. intros E I' Hok'; inversion E; subst s'.
-      eapply (cap_step cap s _ tid _ _ _ _ I I' C Htid Eth eq_refl); simpl; try lia.
+      capstep_ cap s tid I I' C Htid Eth.
       + split; simpl; auto. unfold evict_toll_deficit. destruct (2 - d <=? 0)%Z; simpl; auto. split; auto. lia.
       + left. unfold evict_toll_deficit. destruct (Z.ltb_spec 0 d); destruct (Z.leb_spec (2 - d) 0); simpl; lia.
     - destruct Hpc as [-> Hd]. destruct ((i <? nsegs (c_map s)) && (0 <? deficit)%Z).
       + intros E I' Hok'; inversion E; subst s'.
         destruct (Z.leb_spec (sm_count (c_map s)) cap).
-        * eapply (cap_step cap s _ tid _ _ _ _ I I' C Htid Eth eq_refl); simpl; try lia. { split; simpl; auto. } right. lia.
-        * eapply (cap_step cap s _ tid _ _ _ _ I I' C Htid Eth eq_refl); simpl; try lia. { split; simpl; auto. } left. lia.
+        * capstep_ cap s tid I I' C Htid Eth; [split; simpl; auto|right; lia].
+        * capstep_ cap s tid I I' C Htid Eth; [split; simpl; auto|left; lia].
       + intros E I' Hok'; inversion E; subst s'.
-        eapply (cap_step cap s _ tid _ _ _ _ I I' C Htid Eth eq_refl); simpl; try lia. { split; simpl; auto. } left. lia.
+        capstep_ cap s tid I I' C Htid Eth; [split; simpl; auto|left; lia].
     - destruct Hpc as [-> Hd]. destruct (lock_free s _); [|discriminate]. destruct (tevict mix _ _ _ _) as [t2 d].
       intros E I' Hok'; inversion E; subst s'.
-      pose proof (Hnew _ _ _ eq_refl Hok') as Hd'. simpl in Hd'.
-      eapply (cap_step cap s _ tid _ _ _ _ I I' C Htid Eth eq_refl); simpl; try lia.
-      + split; simpl; auto.
-      + left. lia.
+      pose proof (Hnew (SpSub k cap i deficit d) rest Hok') as Hd'. simpl in Hd'.
+      capstep_ cap s tid I I' C Htid Eth; [split; simpl; auto|left; lia].
     - destruct Hpc as [-> [Hd Hd0]]. destruct (Z.ltb_spec 0 d); intros E I' Hok'; inversion E; subst s'.
-      + eapply (cap_step cap s _ tid _ _ _ _ I I' C Htid Eth eq_refl); simpl; try lia. { split; simpl; auto. split; auto. lia. } left. lia.
-      + eapply (cap_step cap s _ tid _ _ _ _ I I' C Htid Eth eq_refl); simpl; try lia. { split; simpl; auto. } left. lia.
+      + capstep_ cap s tid I I' C Htid Eth; [split; simpl; auto; split; auto; lia|left; lia].
+      + capstep_ cap s tid I I' C Htid Eth; [split; simpl; auto|left; lia].
     - destruct (lock_free s _); [|discriminate].
       pose proof (table_op_nonpos cap (seg (c_map s) (sidx (nsegs (c_map s)) (call_key c))) c Hpc) as Hnp.
       destruct (table_op mix _ c) as [t' delta]. simpl in Hnp.
       intros E I' Hok'; inversion E; subst s'.
-      eapply (cap_step cap s _ tid _ _ _ _ I I' C Htid Eth eq_refl); simpl; try lia.
-      + split; simpl; auto.
-      + left. lia.
+      capstep_ cap s tid I I' C Htid Eth; [split; simpl; auto|left; lia].
     - intros E I' Hok'; inversion E; subst s'.
-      eapply (cap_step cap s _ tid _ _ _ _ I I' C Htid Eth eq_refl); simpl; try lia. { split; simpl; auto. } left. lia.
+      capstep_ cap s tid I I' C Htid Eth; [split; simpl; auto|left; lia].
     - destruct (i <? nsegs (c_map s)).
       + destruct (lock_free s i); [|discriminate]. intros E I' Hok'; inversion E; subst s'.
-        pose proof (Hnew _ _ _ eq_refl Hok') as Hd'. simpl in Hd'.
-        eapply (cap_step cap s _ tid _ _ _ _ I I' C Htid Eth eq_refl); simpl; try lia. { split; simpl; auto. } left. lia.
+        pose proof (Hnew (ClrSub i (tlen (seg (c_map s) i))) rest Hok') as Hd'. simpl in Hd'.
+        capstep_ cap s tid I I' C Htid Eth; [split; simpl; auto|left; lia].
       + intros E I' Hok'; inversion E; subst s'.
-        eapply (cap_step cap s _ tid _ _ _ _ I I' C Htid Eth eq_refl); simpl; try lia. { split; simpl; auto. } left. lia.
+        capstep_ cap s tid I I' C Htid Eth; [split; simpl; auto|left; lia].
     - intros E I' Hok'; inversion E; subst s'.
-      eapply (cap_step cap s _ tid _ _ _ _ I I' C Htid Eth eq_refl); simpl; try lia. { split; simpl; auto. } left. lia.
+      capstep_ cap s tid I I' C Htid Eth; [split; simpl; auto|left; lia].
     - destruct (lock_free s _); [|discriminate]. intros E I' Hok'; inversion E; subst s'.
-      eapply (cap_step cap s _ tid _ _ _ _ I I' C Htid Eth eq_refl); simpl; try lia. { split; simpl; auto. } left. lia.
+      capstep_ cap s tid I I' C Htid Eth; [split; simpl; auto|left; lia].
     - destruct (i <? nsegs (c_map s)).
       + destruct (lock_free s i); [|discriminate]. intros E I' Hok'; inversion E; subst s'.
-        eapply (cap_step cap s _ tid _ _ _ _ I I' C Htid Eth eq_refl); simpl; try lia. { split; simpl; auto. } left. lia.
+        capstep_ cap s tid I I' C Htid Eth; [split; simpl; auto|left; lia].
       + intros E I' Hok'; inversion E; subst s'.
-        eapply (cap_step cap s _ tid _ _ _ _ I I' C Htid Eth eq_refl); simpl; try lia. { split; simpl; auto. } left. lia.
+        capstep_ cap s tid I I' C Htid Eth; [split; simpl; auto|left; lia].
   Qed.
 
   Lemma run_cap cap sched : forall s, Inv s -> CapInv cap s -> CapInv cap (run s sched).
@@ -568,7 +558,7 @@ Section ConcProofs.
     assert (I0 : Inv (init m0 progs)) by (apply init_inv; auto).
     assert (C0 : CapInv cap (init m0 progs)).
     { constructor; simpl.
-      - intros th Hin. apply in_map_iff in Hin. destruct Hin as [p [<- Hin]]. split; simpl; auto.
+      - intros th Hin. apply in_map_iff in Hin. destruct Hin as [p [<- Hin]]. split; simpl; auto. apply Hp; auto.
       - lia.
       - unfold entries. simpl. rewrite sum_sizes_same, <- (s_count mix sidx m0 S).
         assert (sum_cr (map (fun p : list call => (Idle, p)) progs) = 0%Z) by (clear; induction progs; simpl; auto).
@@ -711,6 +701,113 @@ Section ConcProofs.
     - assert (L : LockInv s) by (apply run_lock, init_lock).
       intros j1 j2 tid H1 H2. pose proof (L j1 tid H1). pose proof (L j2 tid H2). congruence.
     - intros n p. destruct p; simpl; try discriminate; auto.
+  Qed.
+
+  (* ------------------------------------------------------------ readers *)
+  Lemma nodup_app {A} (l l' : list A) : NoDup l -> NoDup l' -> (forall a, In a l -> ~ In a l') -> NoDup (l ++ l').
+  Proof.
+    induction l; simpl; intros H1 H2 H; auto. inversion H1; subst. constructor.
+    - rewrite in_app_iff. intros [Hin|Hin]; [contradiction|]. exact (H a (or_introl eq_refl) Hin).
+    - apply IHl; auto. intros b Hb. apply H. auto.
+  Qed.
+
+  (* a ForEach in progress has yielded no key twice, and only keys of segments it has passed *)
+  Definition FeOk (n : nat) (p : pc) : Prop :=
+    match p with
+    | FeSeg i acc => NoDup (map fst acc) /\ forall k v, In (k, v) acc -> sidx n k < i
+    | _ => True
+    end.
+  Definition ObsOk (o : nat * obs) : Prop :=
+    match snd o with ObAll l => NoDup (map fst l) | _ => True end.
+  Record RdInv (s : cstate) : Prop := {
+    r_fe : forall th, In th (c_thr s) -> FeOk (nsegs (c_map s)) (fst th);
+    r_obs : forall o, In o (c_obs s) -> ObsOk o }.
+
+  Lemma rd_generic s tid m' locks' p' rest' exh' obs' :
+    RdInv s -> nsegs m' = nsegs (c_map s) -> FeOk (nsegs (c_map s)) p' ->
+    (forall o, In o obs' -> In o (c_obs s) \/ ObsOk o) ->
+    RdInv (mk_cstate m' locks' (lupd tid (p', rest') (c_thr s)) exh' obs').
+  Proof.
+    intros [Hf Ho] Hn Hp Hobs. constructor; simpl.
+    - intros th Hin. rewrite Hn. apply in_lupd in Hin. destruct Hin as [->|Hin]; auto.
+    - intros o Hin. destruct (Hobs o Hin); auto.
+  Qed.
+
+  Lemma step_rd s tid s' : Inv s -> RdInv s -> step s tid = Some s' -> RdInv s'.
+  Proof.
+    intros I R. pose proof (i_segs s I) as [Hn0 [Hw Hh]]. unfold Conc.step.
+    destruct (nth tid (c_thr s) (Idle, [])) as [p rest] eqn:Eth.
+    destruct (Nat.leb_spec (length (c_thr s)) tid) as [|Htid]; [discriminate|].
+    assert (Hin : In (p, rest) (c_thr s)) by (rewrite <- Eth; apply nth_In; exact Htid).
+    pose proof (r_fe s R _ Hin) as Hfe. simpl in Hfe.
+    assert (Hsame : forall o, In o (c_obs s) -> In o (c_obs s) \/ ObsOk o) by auto.
+    destruct p.
+    - destruct rest as [|c rest']; [discriminate|]. intros E; inversion E; subst s'.
+      apply rd_generic; auto. destruct c; simpl; auto. split; [constructor|intros k v []].
+    - destruct (lock_free s _); [|discriminate]. intros E; inversion E; subst s'.
+      apply rd_generic; simpl; auto. apply nsegs_set.
+    - intros E; inversion E; subst s'. apply rd_generic; simpl; auto.
+    - destruct (cap <? sm_count (c_map s))%Z.
+      + destruct (tevict mix _ _ _ _) as [t2 d]. intros E; inversion E; subst s'.
+        apply rd_generic; simpl; auto. apply nsegs_set.
+      + intros E; inversion E; subst s'. apply rd_generic; simpl; auto.
+    - intros E; inversion E; subst s'. apply rd_generic; simpl; auto.
+      destruct (evict_toll_deficit - d <=? 0)%Z; simpl; auto.
+    - destruct ((i <? nsegs (c_map s)) && (0 <? deficit)%Z); intros E; inversion E; subst s'.
+      + apply rd_generic; simpl; auto. destruct (sm_count (c_map s) <=? cap)%Z; simpl; auto.
+      + apply rd_generic; simpl; auto.
+    - destruct (lock_free s _); [|discriminate]. destruct (tevict mix _ _ _ _) as [t2 d].
+      intros E; inversion E; subst s'. apply rd_generic; simpl; auto. apply nsegs_set.
+    - destruct (0 <? d)%Z; intros E; inversion E; subst s'; apply rd_generic; simpl; auto.
+    - destruct (lock_free s _); [|discriminate]. destruct (table_op mix _ _) as [t' delta].
+      intros E; inversion E; subst s'. apply rd_generic; simpl; auto. apply nsegs_set.
+    - intros E; inversion E; subst s'. apply rd_generic; simpl; auto.
+    - destruct (i <? nsegs (c_map s)).
+      + destruct (lock_free s i); [|discriminate]. intros E; inversion E; subst s'.
+        apply rd_generic; simpl; auto. apply nsegs_set.
+      + intros E; inversion E; subst s'. apply rd_generic; simpl; auto.
+    - intros E; inversion E; subst s'. apply rd_generic; simpl; auto.
+    - destruct (lock_free s _); [|discriminate]. intros E; inversion E; subst s'.
+      apply rd_generic; simpl; auto. intros o [<-|Ho]; auto. right. exact Logic.I.
+    - destruct (Nat.ltb_spec i (nsegs (c_map s))) as [Hi|Hi].
+      + destruct (lock_free s i); [|discriminate]. intros E; inversion E; subst s'.
+        apply rd_generic; simpl; auto.
+        destruct Hfe as [Hnd Hlt].
+        destruct (tall_spec mix (seg (c_map s) i) (Hw i Hi)) as [Hnd' [Hio _]].
+        assert (Hhome : forall k v, In (k, v) (tall (seg (c_map s) i)) -> sidx (nsegs (c_map s)) k = i).
+        { intros k v Hkv. apply (Hh i k Hi). apply Hio in Hkv. congruence. }
+        split.
+        * rewrite map_app. apply nodup_app; auto.
+          intros k Hk1 Hk2. apply in_map_iff in Hk1. destruct Hk1 as [[k1 v1] [E1 Hk1]].
+          apply in_map_iff in Hk2. destruct Hk2 as [[k2 v2] [E2 Hk2]]. simpl in *. subst.
+          pose proof (Hlt _ _ Hk1). pose proof (Hhome _ _ Hk2). lia.
+        * intros k v Hkv. apply in_app_iff in Hkv. destruct Hkv as [Hkv|Hkv].
+          -- pose proof (Hlt _ _ Hkv). lia.
+          -- pose proof (Hhome _ _ Hkv). lia.
+      + intros E; inversion E; subst s'. apply rd_generic; simpl; auto.
+        intros o [<-|Ho]; auto. right. unfold ObsOk. simpl. apply Hfe.
+  Qed.
+
+  Lemma run_rd sched : forall s, Inv s -> RdInv s -> RdInv (run s sched).
+  Proof.
+    induction sched as [|tid r IH]; intros s I R; simpl; auto.
+    destruct (step s tid) eqn:E; [|apply IH; auto].
+    apply IH; [eapply step_inv; eauto|eapply step_rd; eauto].
+  Qed.
+
+  (* ForEach running concurrently with any writers (it takes the segments one at
+     a time, so it is not a snapshot) never yields a key twice. *)
+  Theorem foreach_no_duplicates m0 progs sched :
+    SWF mix sidx m0 ->
+    let s := run (init m0 progs) sched in
+    forall tid l, In (tid, ObAll l) (c_obs s) -> NoDup (map fst l).
+  Proof.
+    intros S s tid l Hin.
+    assert (R : RdInv s).
+    { apply run_rd; [apply init_inv; auto|]. constructor; simpl.
+      - intros th Hth. apply in_map_iff in Hth. destruct Hth as [p [<- _]]. exact Logic.I.
+      - intros o []. }
+    apply (r_obs s R _ Hin).
   Qed.
 End ConcProofs.
 
